@@ -149,6 +149,21 @@ Lemma ui_references_served_spec f a :
   api_handler f a (a_url_path a) = ASpec.
 Proof. intros Hr Hf. apply api_handler_spec. symmetry. now apply api_spec_path_clean. Qed.
 
+(* ... and so is every request whose cleaned path is that of the URL path: what a browser sends after resolving the
+   reference (dot segments removed, percent-encoding undone by the server) *)
+Lemma reference_request_served f a req :
+  rooted (a_url_path a) = true -> snd (path_split (a_url_path a)) <> [] ->
+  clean req = clean (a_url_path a) -> api_handler f a req = ASpec.
+Proof. intros Hr Hf E. apply api_handler_spec. rewrite E. symmetry. now apply api_spec_path_clean. Qed.
+
+(* the flavour-specific options (script, style and icon URLs) do not move the page and decide nothing else *)
+Lemma assets_only_reach_the_page f o l page hn req :
+  ui_path f (with_assets o l) = ui_path f o /\ serve_ui f (with_assets o l) page hn req = serve_ui f o page hn req.
+Proof.
+  assert (E : ui_path f (with_assets o l) = ui_path f o) by (destruct f; reflexivity).
+  split; [exact E|]. unfold serve_ui. now rewrite E.
+Qed.
+
 (* without any SpecURL option the page references /swagger.json and that is where the spec is served *)
 Lemma default_spec_url_served f a :
   a_o_spec_url a = None -> a_url_path a = [] ->
